@@ -28,8 +28,9 @@ KINDS = {'sign', 'json.load', 'json.dumps', 'from_private_bytes', 'create_signat
 SIGN_OR_SERIALISE = {'sign', 'json.dumps', 'create_signature'}
 
 
-def judge_path(eng, tp, fs, out, target, initial):
-    """(list of violated obligation names, reach labels) from the event order and the final file system"""
+def judge_path(eng, tp, fs, out, target, initial, it=None, symb=None):
+    """(list of violated obligation names, reach labels) from the event order and the final file system; obligations that
+    depend on the values (the file was re-written: are the bytes the same?) are appended to symb as (name, z3 formula)"""
     bad, reach = [], []
     first_trunc = None
     fault_idx = None
@@ -42,13 +43,26 @@ def judge_path(eng, tp, fs, out, target, initial):
             bad.append(f'a signature is computed / data is serialised ({e["kind"]}) after the target file was opened for writing')
     cur = fs.files.get(target)
     unchanged = cur is initial
+    differs = None
+    if not unchanged and symb is not None and it is not None and cur is not None and initial is not None and cur not in (b'', ''):
+        from pysym.models import bytes_eq
+        try:
+            differs = z3.Not(bytes_eq(it, cur, initial))       # the file was written again: same bytes?
+        except Exception:
+            differs = None
     fault_what = next((e['what'] for e in eng.events if e['kind'] == 'fault'), None)
     if not is_ret(out):
         reach.append('failed before output' if first_trunc is None else 'failed during output')
+        name = None
         if first_trunc is None and not unchanged:
-            bad.append('the call failed before opening its output, yet the file content changed')
-        elif not unchanged and fault_what in SIGN_OR_SERIALISE:
-            bad.append('signing / serialisation failed after the target file had been opened for writing: a truncated or partial file is left behind')
+            name = 'the call failed before opening its output, yet the file content changed'
+        elif not unchanged and (fault_what in SIGN_OR_SERIALISE or fault_what is None or first_trunc is None or (fault_idx is not None and fault_idx < first_trunc)):
+            name = 'signing / serialisation failed after the target file had been opened for writing: a truncated or partial file is left behind' if fault_what in SIGN_OR_SERIALISE and fault_idx is not None and first_trunc is not None and fault_idx > first_trunc else 'the call failed (not while writing its output) and the file no longer holds the bytes it held before'
+        if name:
+            if differs is not None:
+                symb.append((name, differs))
+            else:
+                bad.append(name)
     else:
         reach.append('succeeded')
     return bad, reach
@@ -96,7 +110,8 @@ def repodata_factory(ns, via_cli=False, max_fault=120, **kw):
                 it.fault_at = fault
                 out = run_call(it, S.sign_all_in_repodata, [repo.FNAME, tp['key']])
             it.fault_at = None
-            bad, reach = judge_path(eng, tp, fs, out, repo.FNAME, initial)
+            symb = []
+            bad, reach = judge_path(eng, tp, fs, out, repo.FNAME, initial, it, symb)
             if via_cli and is_ret(out):
                 # a zero / None status means "signed": then the file must have been written
                 rv = out[1]
@@ -117,8 +132,8 @@ def repodata_factory(ns, via_cli=False, max_fault=120, **kw):
                 if keytext is not None:
                     c['keytext'] = conc(mm, keytext)
                 return c
-            obs = [dict(name=b, status='sat', cex=mk(m)) for b in bad]
-            if not bad:
+            obs = [dict(name=b, status='sat', cex=mk(m)) for b in bad] + [oblige(eng, n_, f_, mk) for n_, f_ in symb]
+            if not obs:
                 obs.append(dict(name='all-or-nothing on this path: the file is untouched unless the output phase was reached after all signing and serialisation', status='unsat'))
             w = mk(m)
             w['predicted'] = predicted(out)
@@ -407,12 +422,12 @@ def judge(case, obs):
 
 def units(tier):
     q = tier == 'quick'
-    return [Unit('sign_all_in_repodata+fault', repodata_factory('f1', A=1, B=1, wrong_kinds=True, meta_kinds=False), expect=('succeeded', 'failed before output'), max_witnesses=150 if q else 600),
+    return [Unit('sign_all_in_repodata+fault', repodata_factory('f1', A=1, B=1, wrong_kinds=True, meta_kinds=False, spellings=True), expect=('succeeded', 'failed before output'), max_witnesses=150 if q else 600),
             Unit('cli_sign_artifacts+fault', repodata_factory('f2', via_cli=True, A=1, B=0, wrong_kinds=False, meta_kinds=False), expect=('cli:signed', 'cli:aborted', 'failed before output'), max_witnesses=100 if q else 400),
             Unit('sign_root_metadata_via_gpg+fault', gpg_factory('f3'), expect=('succeeded', 'failed before output'), max_witnesses=100 if q else 400)]
 
 
 BOUNDS = dict(fault_point='symbolic: any executed statement of the repository code (<= 120 steps cover every path of these templates) or any call of sign / json.load / from_private_bytes / create_signature / export_pubkey',
-              inputs='repodata as in C11 with one artifact per section (sections present / absent / of a wrong kind), file canonical JSON / not JSON / missing, key any string <= 66 characters; sign-artifacts: key file text any string <= 66 characters; GPG path: file holds a signable / is not JSON / is missing / lacks the signatures field, library available or not, gpg call failing or not')
+              inputs='repodata as in C11 with one artifact per section (sections present / absent / of a wrong kind), file canonical JSON / the same JSON in a non-canonical spelling (trailing newline) / not JSON / missing, key any string <= 66 characters; sign-artifacts: key file text any string <= 66 characters; GPG path: file holds a signable / is not JSON / is missing / lacks the signatures field, library available or not, gpg call failing or not')
 OUTSIDE = 'failures during the final write itself (excluded by the statement); faults inside library code below the stubbed boundary; more artifacts'
 ASSUMPTIONS = ['opening a file for writing truncates it at open time (file-system stub)', 'an injected fault is an exception that only bare except / except Exception handlers catch']
